@@ -108,6 +108,40 @@ mutual
     | .mk isDef _ b :: cs => (if isDef then Stmt.sizes b else 0) + Case.defaultsSize cs
 end
 
+/-! ### depth of the tree, as the recursion of `compile` sees it -/
+mutual
+  def Expr.depth : Expr → Nat
+    | .arrayLit els => 1 + Expr.depths els
+    | .hashLit ps => 1 + Pair.depths ps
+    | .prefix _ r => 1 + r.depth
+    | .infix _ l r => 1 + max l.depth r.depth
+    | .ternary c t f => 1 + max c.depth (max t.depth f.depth)
+    | .index l i => 1 + max l.depth i.depth
+    | .call _ args => 1 + Expr.depths args
+    | .assign _ v => 1 + v.depth
+    | .ifE c cons alt => 1 + max c.depth (max (1 + Stmt.depths cons) (match alt with | none => 0 | some a => 1 + Stmt.depths a))
+    | .whileE c b => 1 + max c.depth (1 + Stmt.depths b)
+    | .foreachE _ _ v b => 1 + max v.depth (1 + Stmt.depths b)
+    | .switchE v cs => 1 + max v.depth (Case.depths cs)
+    | .funcDef _ _ b => 1 + (1 + Stmt.depths b)
+    | _ => 1
+  def Expr.depths : List Expr → Nat
+    | [] => 0
+    | e :: es => max e.depth (Expr.depths es)
+  def Pair.depths : List Pair → Nat
+    | [] => 0
+    | .mk k v :: ps => max (max k.depth v.depth) (Pair.depths ps)
+  def Stmt.depth : Stmt → Nat
+    | .expr e => 1 + e.depth
+    | .ret e => 1 + e.depth
+  def Stmt.depths : List Stmt → Nat
+    | [] => 0
+    | s :: ss => max s.depth (Stmt.depths ss)
+  def Case.depths : List Case → Nat
+    | [] => 0
+    | .mk _ es b :: cs => max (max (Expr.depths es) (1 + Stmt.depths b)) (Case.depths cs)
+end
+
 namespace Compiler
 
 /-! ### compiler state and errors -/
@@ -116,6 +150,7 @@ inductive CErr
   | unknownOperator
   | unknownPostfix
   | tooLarge         -- Prepare: "the script is too large to compile"
+  | tooDeep          -- "the script is too deeply nested to compile"
   deriving DecidableEq, Repr
 
 structure FnDef where
@@ -349,17 +384,19 @@ mutual
         else compileDefaults rest base st
 end
 
+def maxProgramSize : Nat := 65536
+
 /-- the compiled program as `Prepare` hands it to `vm.New` -/
 structure Compiled where
   consts : List Value
   main : List Instr
   funcs : List FnDef
 
-def maxProgramSize : Nat := 65536
-
 /-- `e.compile(program)` followed by the size check of `Prepare` -/
 def compileProgram (prog : Program) : CM Compiled := do
   let prog := normStmts prog
+  -- the depth guard of `compile` (only relevant for trees deeper than the byte-code limit allows)
+  if 1 + Stmt.depths prog > maxProgramSize then throw .tooDeep
   let (code, st) ← compileStmts prog 0 ⟨[], []⟩
   if codeSize code > maxProgramSize || st.consts.length > maxProgramSize
       || st.funcs.any (fun f => codeSize f.code > maxProgramSize) then throw .tooLarge
